@@ -39,7 +39,8 @@ fn culprit(run: &SeqRun) -> &'static str {
                 }
                 _ => false,
             };
-            if ok {
+            // ... and needs a weight table that is otherwise in order (every charged id belongs to the stored key it names)
+            if ok && accounting_violations(b).is_empty() && accounting_violations(a).is_empty() {
                 "weight-update-of-existing-key"
             } else {
                 "miscounted-weight-update"
@@ -163,6 +164,40 @@ fn ttl_moves_spec(ctx: &Ctx) -> SeqSpec {
     }
 }
 
+/// Second lives with a capacity hint (2) below the number of keys that come and go: the history starts with a heavy key
+/// alive and a light key already through one life; weight changes of either, re-puts and deletes follow.
+fn second_lives_spec(ctx: &Ctx) -> SeqSpec {
+    let quick = ctx.quick();
+    let ups = |k: K, w: i64| Op::Upsert { k, value: true, w: Some(w), ttl_ms: None, remove_ttl: false };
+    SeqSpec {
+        name: "seq/weight-bound/second-lives/W=4/capacity=2".into(),
+        setup: Setup { weight: 4, buffer: 2, capacity: 2, weight_fn: WeightFn::Const { c: 1, ttl_extra: 1 }, ..Setup::default() },
+        world: Default::default(),
+        prefix: vec![Op::Put { k: 1, w: Some(3), ttl_ms: None }, Op::Put { k: 2, w: Some(1), ttl_ms: None }, Op::Delete { k: 2 }],
+        alphabet: vec![
+            Op::Put { k: 2, w: Some(1), ttl_ms: None },
+            Op::Put { k: 3, w: Some(1), ttl_ms: Some(2000) },
+            ups(1, 2),
+            ups(1, 1),
+            ups(2, 1),
+            Op::Delete { k: 1 },
+            Op::Delete { k: 2 },
+            Op::Delete { k: 3 },
+            Op::Advance { ms: 3000 },
+            Op::TickWait,
+            Op::TotalWeight,
+        ],
+        depth: if quick { 4 } else { 7 },
+        allow: None,
+        oracle: seq_oracle(),
+        keys: vec![1, 2, 3],
+        canon_sketch: true,
+        ghost_key: None,
+        max_states: 3_000_000,
+        time_cap_s: if quick { 10.0 } else { 500.0 },
+    }
+}
+
 // ---------------------------------------------------------------------------------------------- ilv
 fn ilv_oracle() -> Oracle {
     Arc::new(|run: &Run, out: &mut Vec<crate::harness::ilv::Finding>| {
@@ -221,6 +256,7 @@ pub fn def(ctx: &Ctx) -> PropertyDef {
         scenarios.push(seq_scenario(move |c| seq_spec(c, w), &name));
     }
     scenarios.push(seq_scenario(ttl_moves_spec, "seq/weight-bound/ttl-moves/W=60"));
+    scenarios.push(seq_scenario(second_lives_spec, "seq/weight-bound/second-lives/W=4/capacity=2"));
     let quick = ctx.quick();
     let workers = ctx.workers;
     for p in crate::harness::ilv::for_tier(ilv_programs(), quick) {
